@@ -56,6 +56,8 @@ def unit():
                           desc="accepted => starts with own version+kind header; body is the whole remainder (base64 decoder by contract)"))
     hs.append(Harness("token_parse_concrete", ["C09", "C10", "C01", "C04"], complete=False, bound="12 concrete token strings (bounded stand-in, not a proof)", functions=fn,
                       desc="token FromStr structure on concrete strings: first-dot split, trailing dot, extra segments, foreign headers, padding"))
+    hs.append(Harness("paserk_cross_kind_concrete", ["C10", "C04"], complete=False, tier="thorough", bound="16 concrete PASERK strings x foreign parsers (bounded stand-in, not a proof)", functions=fn,
+                      desc="a well-formed k4 string of one kind is rejected by the parsers of the other kinds (plaintext vs wrap.pie vs pw vs seal vs id), concrete strings"))
     for n in ["token_display_local_4_3", "token_display_public_2_0", "token_display_local_0_1"]:
         hs.append(Harness(n, ["C09", "C01"], complete=False, bound="payload/footer lengths as named; contents symbolic", functions=fn, timeout=1500,
                           tier="quick" if n == "token_display_local_4_3" else "thorough",
